@@ -211,16 +211,23 @@ def birthsBaselineUnfixed (otherDeaths slaughter transferIn : K) : K := otherDea
 /-- the baseline after the fix -/
 def birthsBaseline (otherDeaths slaughter transferIn : K) : K := max 0 (otherDeaths + slaughter - transferIn)
 
+omit [IsStrictOrderedRing K] in
 theorem birthsBaseline_nonneg (od sl tr : K) : 0 ≤ birthsBaseline od sl tr := le_max_left _ _
 
-/-- BLR meat goats: 29456 head, 5 % annual deaths, 3600 slaughtered a year, 431.6 transferred in a month -/
+/-- Belarus, meat goats (FAOSTAT table of the repository): 29 456 head, no recorded slaughter, 5 % annual
+    natural deaths; the dairy goats (30 644 head, 1149.15 female births a month, 1/120 retiring a month)
+    send `(1149.15 + 30644/120) · (1 − 0.9) ≈ 140.45` animals a month, more than the 122.73 that die:
+    baseline births −17.7, pregnant animals −44.3, births recorded in month 0: −17.7 -/
+def blrTransfer : ℚ := (1149.15 + 30644 * (1 / 10 / 12)) * (1 - 0.9)
+def blrBirths : ℚ := birthsBaselineUnfixed ((29456 : ℚ) * (0.05 / 12)) 0 blrTransfer
+
 theorem C06_negative_births_counterexample :
-    birthsBaselineUnfixed ((29456 : ℚ) * (0.05 / 12)) (3600 / 12) 431.6 < 0 ∧
-    (birthsOne (0 : ℚ) ⟨⟨⟨"meat_goat", "goat", false, true, .medium, 0.6, 0.8, 1e-5, 4, 300, 29456, 0.05 / 12, 2, 1, 0.9, 5, 0, 1, 0.9, 0⟩,
-        ⟨29456, 300, 5 * birthsBaselineUnfixed ((29456 : ℚ) * (0.05 / 12)) (3600 / 12) 431.6 / 2,
-          birthsBaselineUnfixed ((29456 : ℚ) * (0.05 / 12)) (3600 / 12) 431.6 / 2, 0⟩⟩,
-        0, ⟨0, 0, 0, 0, 0, 0⟩, 0⟩).births < 0 := by
-  constructor <;> decide +kernel
+    blrBirths < 0 ∧
+    (birthsOne (0 : ℚ) ⟨⟨⟨"meat_goat", "goat", false, true, .medium, 0.6, 0.8, 1e-5, 4, 0, 29456, 0.05 / 12, 2, 1, 0.9, 5, 0, 1, 0.9, 0⟩,
+        ⟨29456, 0, 1 * blrBirths / 2 * 5, 1 * blrBirths / 2 * 5 / 5, 0⟩⟩,
+        0, ⟨0, 0, 0, 0, 0, 0⟩, 0⟩).births < 0 ∧
+    birthsBaseline ((29456 : ℚ) * (0.05 / 12)) 0 blrTransfer = 0 := by
+  refine ⟨?_, ?_, ?_⟩ <;> decide +kernel
 
 /-! ## non-vacuity: a two-herd country (dairy + beef cattle) over three months on ℚ -/
 
@@ -232,16 +239,18 @@ def exMeat : Herd ℚ :=
    ⟨2000, 50, 100, 50, 0⟩⟩
 def exCountry : Country ℚ := ⟨0, 0.5, 0⟩
 
-/-- the run completes, and in month 0 the beef herd receives 10 retired cows + 1 surviving calf … -/
-example : (match run exCountry (fun x => x) [exMeat, exMilk] [(1, 1), (0, 2), (5, 0)] with
-    | .ok (rs, _) => rs.map (fun r => r.recs.map (fun d => d.c.transferPop))
-    | .error _ => []) = [[11, -11], [1079 / 125, -1079 / 125], [137987 / 20000, -137987 / 20000]] := by
-  decide +kernel
+/-- per month and herd: (transfer_population, starvation deaths, end-of-month head count, slaughter) -/
+def exOut (x : Except String (List (MonthRec ℚ) × List (Herd ℚ))) : List (List (ℚ × ℚ × ℚ × ℚ)) :=
+  match x with
+  | .ok (rs, _) => rs.map (fun r => r.recs.map (fun d => (d.c.transferPop, d.ods, d.popEnd, d.c.slaughter)))
+  | .error _ => []
 
-/-- … with partial feeding in every month (some animals starve) -/
-example : (match run exCountry (fun x => x) [exMeat, exMilk] [(1, 1), (0, 2), (5, 0)] with
-    | .ok (rs, _) => rs.map (fun r => r.recs.map (fun d => decide (0 < d.ods)))
-    | .error _ => []) = [[true, true], [true, true], [true, true]] := by
+/-- the run completes; in month 0 the beef herd receives 10 retired cows + 1 surviving male calf, both
+    herds are only partially fed in months 0 and 1 (animals starve) and fully fed in month 2 -/
+example : exOut (run exCountry (fun x => x) [exMeat, exMilk] [(1, 1), (0, 2), (5, 0)]) =
+    [[(11, 495, 1496, 50), (-11, 891, 89, 10)],
+     [(989 / 1000, 1107 / 5, 623877 / 500, 50), (-989 / 1000, 801 / 10, 811 / 100, 0)],
+     [(9001 / 100000, 0, 4136528123 / 3400000, 50), (-9001 / 100000, 0, 80369 / 10000, 0)]] := by
   decide +kernel
 
 end Allfed.C06
